@@ -480,15 +480,20 @@ package fsutil
 // chmod would drop setuid/setgid, anything after the times would disturb them
 //@ pred specNoSymlink(mode uint32) bool = mode & uint32(os.ModeSymlink) == 0
 //@ func rewriteMetadata
-//@   property C01 C02 C05
+//@   property C01 C02 C05 C03
 //@   requires stat != nil
-//@   effects Setxattr Lchown Chmod Utimes
-//@   loop 0 invariant xattrs_first: cnt(Lchown) == old(cnt(Lchown)) && cnt(Chmod) == old(cnt(Chmod)) && cnt(Utimes) == old(cnt(Utimes)) && when(Setxattr) <= clk()
+// every step uses the no-follow variant (the entry may be a symlink pointing anywhere): LSetxattr,
+// Lchown, chmod only for non-symlinks, utimensat with AT_SYMLINK_NOFOLLOW; the following variant
+// Setxattr is not among the allowed effects (found in use here, repaired: F13)
+//@   effects LSetxattr Lchown Chmod Utimes
+//@   loop 0 invariant xattrs_first: cnt(Lchown) == old(cnt(Lchown)) && cnt(Chmod) == old(cnt(Chmod)) && cnt(Utimes) == old(cnt(Utimes)) && when(LSetxattr) <= clk()
+//@   loop 0 invariant xattrs_on_the_entry: cnt(LSetxattr) > old(cnt(LSetxattr)) ==> arg(LSetxattr, 0) == p
 //@   ensures owner: result == nil ==> cnt(Lchown) == old(cnt(Lchown)) + 1 && arg(Lchown, 0) == p && arg(Lchown, 1) == int(stat.Uid) && arg(Lchown, 2) == int(stat.Gid)
 //@   ensures mode: result == nil && specNoSymlink(stat.Mode) ==> cnt(Chmod) == old(cnt(Chmod)) + 1 && arg(Chmod, 0) == p && arg(Chmod, 1) == os.FileMode(stat.Mode)
 //@   ensures nomode: !specNoSymlink(stat.Mode) ==> cnt(Chmod) == old(cnt(Chmod))
 //@   ensures times: result == nil ==> cnt(Utimes) == old(cnt(Utimes)) + 1 && arg(Utimes, 0) == p && arg(Utimes, 1) * 1000000000 + arg(Utimes, 2) == stat.ModTime && arg(Utimes, 5) == unix.AT_SYMLINK_NOFOLLOW
-//@   ensures order: result == nil ==> (cnt(Setxattr) > old(cnt(Setxattr)) ==> when(Setxattr) < when(Lchown)) && when(Lchown) < when(Utimes) && (specNoSymlink(stat.Mode) ==> when(Lchown) < when(Chmod) && when(Chmod) < when(Utimes))
+//@   ensures xattrs_on_the_entry: cnt(LSetxattr) > old(cnt(LSetxattr)) ==> arg(LSetxattr, 0) == p
+//@   ensures order: result == nil ==> (cnt(LSetxattr) > old(cnt(LSetxattr)) ==> when(LSetxattr) < when(Lchown)) && when(Lchown) < when(Utimes) && (specNoSymlink(stat.Mode) ==> when(Lchown) < when(Chmod) && when(Chmod) < when(Utimes))
 //@   ensures atmost: cnt(Lchown) <= old(cnt(Lchown)) + 1 && cnt(Chmod) <= old(cnt(Chmod)) + 1 && cnt(Utimes) <= old(cnt(Utimes)) + 1
 
 // the digest header is the caller's hash of the entry's stat as sent
